@@ -21,3 +21,19 @@ Definition judge_scores (c : scheme * dataset * list sc_run) : nat :=
              | None => false
              end) runs in
   code m spec.
+
+(** C09 read off the statement, on penalties of any grid (the scheme arrives already scaled to integers): every returned ranking is a
+    ranking of the universe, all returned rankings have ONE score, and that score is at most the score of every departure (the
+    input rankings completed with their missing elements in a last bucket, and the all-tied ranking; or the starters' answers) *)
+Definition judge_share (c : scheme * dataset * list ranking * list ranking) : nat :=
+  let '(s, D, deps, cs) := c in
+  let U := universe D in
+  let scores := map (kemeny_spec s D) cs in
+  let spec :=
+    negb (Nat.eqb (length cs) 0)
+    && forallb (fun cr => is_perm (elems cr) U) cs
+    && match scores with
+       | [] => false
+       | v :: rest => forallb (Z.eqb v) rest && forallb (fun d => v <=? kemeny_spec s D d) deps
+       end in
+  code true spec.
